@@ -186,12 +186,22 @@ def _leaf(rng, atoms, pconst=0.12):
 def assoc_twin(rng, gen_sub):
     """The same operands once as a flat n-ary and once as a nested and/or,
     joined by another connective: Or(a, b, c) vs Or(a, Or(b, c))."""
-    op = rng.choice(['Or', 'And'])
-    xs = [gen_sub() for _ in range(3)]
-    flat = [op] + xs
-    nested = [op, xs[0], [op, xs[1], xs[2]]] if rng.random() < 0.5 \
-        else [op, [op, xs[0], xs[1]], xs[2]]
-    pair = [flat, nested]
+    kind = rng.choice(['assoc', 'assoc', 'assoc', 'dneg', 'imply'])
+    if kind == 'dneg':
+        # x and not not x
+        x = [rng.choice(['Or', 'And']), gen_sub(), gen_sub()]
+        pair = [x, ['Not', ['Not', x]]]
+    elif kind == 'imply':
+        # a --> b and (not a) or b
+        a, b = gen_sub(), gen_sub()
+        pair = [['Imply', a, b], ['Or', ['Not', a], b]]
+    else:
+        op = rng.choice(['Or', 'And'])
+        xs = [gen_sub() for _ in range(3)]
+        flat = [op] + xs
+        nested = [op, xs[0], [op, xs[1], xs[2]]] if rng.random() < 0.5 \
+            else [op, [op, xs[0], xs[1]], xs[2]]
+        pair = [flat, nested]
     rng.shuffle(pair)
     return pair
 
@@ -226,7 +236,7 @@ def gen_path(rng, depth, atoms, budget, state_gen=None, pc=0.12):
         if state_gen is not None and rng.random() < 0.3:
             return state_gen()
         return _leaf(rng, atoms, pc)
-    if depth >= 2 and budget[0] > 0 and rng.random() < 0.1:
+    if depth >= 2 and budget[0] > 0 and rng.random() < 0.2:
         a, b = assoc_twin(rng, lambda: _leaf(rng, atoms, pc))
         budget[0] -= 1
         k = rng.choice(['U', 'R', 'AndNot', 'AndNot'])
